@@ -291,7 +291,9 @@ class Ctx:
 
 PHRASES = ["for", "serves", "serve", "to serve", "to serves", "makes", "serving", "to make", "FOR", "Serves", "To  Serve"]
 TITLES = ["Spam", "Spam and eggs", "Fish &amp; chips", "Pie for two people", "4 cheese pizza", "Crème brûlée",
-          "Soup: a classic", "Bread > toast"]
+          "Soup: a classic", "Bread > toast",
+          # a literal "<" (rendered &lt;) or the entity itself is plain text, not markup
+          "Beans < Peas", "Cakes < 5 mins", "Tea &lt; coffee", "a &#60; b", "1 < 2 > 0 & co"]
 
 
 def gen_heading(c: Ctx, first: bool, force_h1: bool = False) -> Tuple[List[str], List[str]]:
